@@ -78,7 +78,7 @@ PROPS = {
                                         gen.gen_name_length_cases(seed + 5, 1500 if tier == 'thorough' else 250)), flavours=['c', 'cxx'],
                 rule='the case families of C01, C07, C14/C15 and C11 plus grammars with hundreds of symbols (C++ containers grow past their initial sizes) are run through libyaep and through class yaep (libyaep++); the two observation streams (return codes, messages, callbacks, flags, exported trees, free_tree traces, hook dumps) must be identical line by line, and both are judged against the same Lean model',
                 assumptions=COMMON_ASSUME + ['cxx_methods_forward is about the method bodies the translator extracts from yaep.cpp (regex-based, checked for one statement per method); that yaep.cpp includes yaep.c compiled as C++ and uses the C++ containers is covered by the stream comparison, not by a theorem']),
-    'C12': dict(level='exploration', theorem_modules=['C01', 'C19', 'CodeTable'], min_theorems=4, tags=['C12'], crash_counts=True,
+    'C12': dict(level='exploration', theorem_modules=['C01', 'C19', 'CodeTable', 'TermSet'], min_theorems=4, tags=['C12'], crash_counts=True,
                 gen=lambda seed, tier: (gen.gen_hostile_cases(seed, 30000 if tier == 'thorough' else 2500) +
                                         gen.gen_parse_cases(seed + 1, 6000 if tier == 'thorough' else 400, 'C07', maxlen=9) +
                                         gen.gen_parse_cases(seed + 2, 6000 if tier == 'thorough' else 400, 'C04') +
